@@ -47,7 +47,7 @@ def patience(ctx, P, iters):
         if not okd:
             ctx.violation(ob, "R7.patience", "%s.get_reneging_date" % cls.name, unparse(dist[0].value) if dist else "reneging_time_distributions", "wrong-distribution",
                           "patience must be sampled from the reneging distribution of the customer's own class at this node", loc(fn))
-        w = Walker(P, view, keep=lambda e: e.kind in ("guard", "return"), track=lambda t, f: True, inline=lambda ev: False)
+        w = Walker(P, view, keep=lambda e: e.kind in ("guard", "return"), track=lambda t, f: True, inline=rules.new_helper)
         okp, np_ = True, 0
         for st in w.paths_of(cls, fn):
             if st.status != "return":
@@ -69,7 +69,7 @@ def patience(ctx, P, iters):
         # armed at accept
         cls2, fn2 = view.method("begin_service_if_possible_accept")
         tok2 = fn2.args.args[1].arg
-        w = Walker(P, view, keep=lambda e: e.kind == "guard" or (e.kind == "assign" and e.d["target"].endswith(".reneging_date")), track=lambda t, f: "reneging" in unparse(t), inline=lambda ev: False, loop_iters=iters)
+        w = Walker(P, view, keep=lambda e: e.kind == "guard" or (e.kind == "assign" and e.d["target"].endswith(".reneging_date")), track=lambda t, f: "reneging" in unparse(t), inline=rules.new_helper, loop_iters=iters)
         for st in w.paths_of(cls2, fn2):
             if st.status == "raise":
                 continue
